@@ -3,7 +3,7 @@
 #  (1) the demo passes without the patch, (2) fails with it, (3) the package's existing tests still pass with it.
 set -u
 export GOFLAGS=-mod=mod GOPROXY=off GOSUMDB=off GOTOOLCHAIN=local
-d="$1"; name=$(echo "$d" | tr '/' '_')
+d=$(readlink -f "$1"); name=$(echo "$d" | tr '/' '_')
 wt=/tmp/vs_$$_$name
 git -C /repo worktree add -q --detach "$wt" HEAD || exit 2
 trap 'git -C /repo worktree remove --force "$wt" >/dev/null 2>&1' EXIT
